@@ -27,6 +27,7 @@ import (
 	_ "github.com/tencent/goom/verifsim/worlds/memw"
 	_ "github.com/tencent/goom/verifsim/worlds/spacew"
 	_ "github.com/tencent/goom/verifsim/worlds/stubw"
+	_ "github.com/tencent/goom/verifsim/worlds/symw"
 	_ "github.com/tencent/goom/verifsim/worlds/varw"
 )
 
